@@ -106,6 +106,75 @@ def show_located(ld):
     return show_partials_dict(ld._numeric_partials)
 
 
+PUBLIC = {}
+for _n in smoothmath.__all__:
+    PUBLIC[_n] = getattr(smoothmath, _n)
+for _n in X.__all__:
+    PUBLIC[_n] = getattr(X, _n)
+
+
+def py_arg(a):
+    if a == 'str':
+        return 'abc'
+    if a == 'badstr':
+        return 'a-b'
+    if a == 'none':
+        return None
+    if a == 'expr':
+        return X.Variable('v3')
+    return sx.parse_num(a)
+
+
+def repr_tokens(text):
+    """Tokenise a printed form into the model's token text (see driver.ml show_token)."""
+    import tokenize as _tk
+    toks = []
+    try:
+        gen = list(_tk.generate_tokens(io.StringIO(text).readline))
+    except Exception as ex:  # noqa: BLE001
+        return 'ERROR tokenize ' + type(ex).__name__
+    raw = [(t.type, t.string) for t in gen
+           if t.type not in (_tk.NEWLINE, _tk.NL, _tk.ENDMARKER, _tk.INDENT, _tk.DEDENT)]
+    i = 0
+    out = []
+    neg = False
+    while i < len(raw):
+        ty, st = raw[i]
+        nxt = raw[i + 1][1] if i + 1 < len(raw) else ''
+        if ty == _tk.NAME:
+            if nxt == '=' and st not in ('n', 'base'):
+                try:
+                    out.append('"%d"' % sx.id_of(st))
+                except ValueError:
+                    out.append('"?%s"' % st)
+            else:
+                out.append(st)
+        elif ty == _tk.STRING:
+            body = st[1:-1]
+            try:
+                out.append('"%d"' % sx.id_of(body))
+            except ValueError:
+                out.append('"?%s"' % body)
+        elif ty == _tk.NUMBER:
+            prev_kw = out[-2] if len(out) >= 2 and out[-1] == '=' else None
+            val = (-1 if neg else 1) * (int(st) if st.isdigit() else float(st))
+            if st.isdigit() and neg:
+                val = -int(st)
+            neg = False
+            if prev_kw == 'n' and isinstance(val, int) and val >= 1:
+                out.append('p%d' % val)
+            else:
+                out.append(sx.num_sx(val))
+        elif ty == _tk.OP and st == '-':
+            neg = True
+        elif ty == _tk.OP:
+            out.append(st)
+        else:
+            out.append('?' + st)
+        i += 1
+    return ' '.join(out)
+
+
 class WarnCatcher(logging.Handler):
     def __init__(self):
         super().__init__()
@@ -308,6 +377,95 @@ def run_line(line):
         CATCH.hit = False
         res = outcome(lambda: Differential(o, compute_early=True).at(mkpoint(p)), show_located)
         return ('WARN ' if CATCH.hit else '') + res
+    if cmd in ('NTRACE', 'PTRACE', 'DTRACE'):
+        return 'SKIP'
+    if cmd == 'EQ':
+        a, k = sx.parse_expr(ts, 1)
+        b, _ = sx.parse_expr(ts, k)
+        oa, ob = build(a), build(b)
+        r = (oa == ob)
+        if not isinstance(r, bool):
+            return 'ERROR eq-not-bool'
+        return 'true' if r else 'false'
+    if cmd == 'PEQ':
+        p, k = sx.parse_point(ts, 1)
+        q, _ = sx.parse_point(ts, k)
+        r = (mkpoint(p) == mkpoint(q))
+        return 'true' if r else 'false'
+    if cmd == 'SHOW':
+        e, _ = sx.parse_expr(ts, 1)
+        o = build(e)
+        t1, t2 = repr_tokens(repr(o)), repr_tokens(str(o))
+        return t1 if t1 == t2 else 'ERROR repr!=str'
+    if cmd == 'SHOWPOINT':
+        p, _ = sx.parse_point(ts, 1)
+        return repr_tokens(repr(mkpoint(p)))
+    if cmd == 'SHOWPARTIAL':
+        v = int(ts[1])
+        e, _ = sx.parse_expr(ts, 2)
+        return repr_tokens(repr(Partial(build(e), sx.name_of(v))))
+    if cmd == 'SHOWDERIV':
+        e, _ = sx.parse_expr(ts, 1)
+        o = build(e)
+        if len(o._variable_names) > 1:
+            return 'REJECT'
+        return repr_tokens(repr(Derivative(o)))
+    if cmd == 'SHOWDIFF':
+        e, _ = sx.parse_expr(ts, 1)
+        return repr_tokens(repr(Differential(build(e))))
+    if cmd == 'SHOWLOC':
+        p, k = sx.parse_point(ts, 1)
+        e, _ = sx.parse_expr(ts, k)
+        o = build(e)
+        try:
+            ld = LocatedDifferential(o, mkpoint(p))
+        except (DomainError, CoordinateMissing):
+            return 'SKIP'
+        return repr_tokens(repr(ld))
+    if cmd == 'PARSEBACK':
+        e, _ = sx.parse_expr(ts, 1)
+        o = build(e)
+        back = eval(repr(o), dict(PUBLIC))
+        return 'true' if (back == o and o == back and not (back != o)) else 'false'
+    if cmd == 'OPPOW':
+        x = X.Variable('v2')
+        try:
+            r = x ** py_arg(ts[1])
+        except Exception:  # noqa: BLE001
+            return 'RAISES'
+        return 'OK ' + show_obj(r)
+    if cmd == 'OPBIN':
+        x = X.Variable('v2')
+        out = []
+        for f in (lambda a, b: a + b, lambda a, b: a - b):
+            try:
+                out.append('OK ' + show_obj(f(x, py_arg(ts[1]))))
+            except Exception:  # noqa: BLE001
+                out.append('RAISES')
+        return ' | '.join(out)
+    if cmd == 'MKNTH':
+        ctor = X.NthPower if ts[1] == 'pow' else X.NthRoot
+        try:
+            r = ctor(py_arg(ts[2]), py_arg(ts[3]))
+        except Exception:  # noqa: BLE001
+            return 'RAISES'
+        return 'OK ' + show_obj(r)
+    if cmd == 'MKBASE':
+        ctor = X.Exponential if ts[1] == 'exp' else X.Logarithm
+        try:
+            r = ctor(py_arg(ts[2]), py_arg(ts[3]))
+        except Exception:  # noqa: BLE001
+            return 'RAISES'
+        return 'OK ' + show_obj(r)
+    if cmd == 'MKVAR':
+        a = ts[1]
+        arg = {'str': 'v2', 'badstr': 'a-b', 'none': None}.get(a, None) if a in ('str', 'badstr', 'none') else (
+            X.Variable('v3') if a == 'expr' else sx.parse_num(a))
+        try:
+            r = X.Variable(arg)
+        except Exception:  # noqa: BLE001
+            return 'RAISES'
+        return 'OK ' + show_obj(r)
     if cmd == 'VARS':
         e, _ = sx.parse_expr(ts, 1)
         return ' '.join(str(i) for i in sorted(sx.id_of(n) for n in build(e)._variable_names))
